@@ -87,16 +87,6 @@ Fixpoint spec_codes (left right : list obs) : list Z :=
   spec_code (lb_decision left right) (gb_boundary left right) (wb_boundary left right)
   :: match right with [] => [] | o :: r => spec_codes (o :: left) r end.
 
-(* known finding F3: LB25 "(PR|PO) × (OP|HY) NU" is not applied when combining marks sit between the
-   opening punctuation/hyphen and the digit (the code looks at the raw next rune) *)
-Definition f3_position (left right : list obs) : bool :=
-  match right with
-  | b :: ((m :: _) as right') =>
-      eis (eff left) [LB_PR; LB_PO] && cin (lb1 b) [LB_OP; LB_HY] && is_mark (lb1 m)
-      && match skip_marks right' with o :: _ => lbc_beq (lb1 o) LB_NU | [] => false end
-  | _ => false
-  end.
-
 (* 0 = agree, 1 = differs only in the line flag at an F3 position, 2 = differs otherwise *)
 Fixpoint oracle_from (left right : list obs) (got : list Z) : nat :=
   match got with
